@@ -35,10 +35,41 @@ where
     }
 }
 
+/// A user-defined adapter that forwards `left` calls of next() and then fails on its own account
+/// (the stream below it is fine): the stream must end up in the Error state all the same.
+#[derive(Clone, Debug)]
+pub struct FailAfter {
+    pub left: usize,
+}
+impl SoloMarker for FailAfter {}
+
+#[async_trait]
+impl<'a, S, A> Adapter<'a, S, A> for FailAfter
+where
+    S: AsRef<str> + Send + Sync + 'a,
+    A: AsRef<[S]> + Send + Sync + 'a,
+{
+    async fn start(&mut self, stream: &mut SearchStream<'a, S, A>, base: &str, scope: Scope, filter: &str, attrs: A) -> LResult<()> {
+        stream.start(base, scope, filter, attrs).await
+    }
+    async fn next(&mut self, stream: &mut SearchStream<'a, S, A>) -> LResult<Option<ResultEntry>> {
+        if self.left == 0 {
+            return Err(ldap3::LdapError::AdapterInit("adapter gave up on its own".into()));
+        }
+        self.left -= 1;
+        stream.next().await
+    }
+    async fn finish(&mut self, stream: &mut SearchStream<'a, S, A>) -> LdapResult {
+        stream.finish().await
+    }
+}
+
 #[derive(Clone, Copy, Debug, PartialEq, Eq)]
 pub enum Ad {
     Pass,
     EntriesOnly,
+    /// outermost only
+    FailAfter(usize),
 }
 
 #[derive(Clone, Copy, Debug, PartialEq, Eq)]
@@ -84,6 +115,9 @@ struct Model {
     state: St,
     res: Option<ResOut>,
     collected_refs: Vec<String>,
+    /// the outermost adapter fails on its own at its (n+1)-th next() call
+    adapter_fails_at: Option<usize>,
+    adapter_calls: usize,
 }
 
 #[derive(Clone, Debug, PartialEq)]
@@ -102,6 +136,11 @@ impl Model {
         if self.state != St::Active {
             return Ret::None;
         }
+        if self.adapter_fails_at == Some(self.adapter_calls) {
+            self.state = St::Error;
+            return Ret::Err;
+        }
+        self.adapter_calls += 1;
         loop {
             if let Some(f) = self.fault_after {
                 if self.pos >= f {
@@ -186,8 +225,13 @@ fn run_case(i: u64, rng: &mut Rng, rep: &mut Report, verbose: bool) {
         6 => vec![Ad::EntriesOnly, Ad::Pass],
         _ => (0..1 + rng.usize(3)).map(|_| if rng.chance(1, 3) { Ad::EntriesOnly } else { Ad::Pass }).collect(),
     };
-    let entries_only = chain.contains(&Ad::EntriesOnly);
+    let mut chain = chain;
     let raw = gen_raw(rng, 1);
+    let adapter_fails_at = if rng.chance(1, 8) { Some(rng.usize(raw.len() + 2)) } else { None };
+    if let Some(k) = adapter_fails_at {
+        chain.insert(0, Ad::FailAfter(k));
+    }
+    let entries_only = chain.contains(&Ad::EntriesOnly);
     let fault_after = if rng.chance(1, 6) { Some(rng.usize(raw.len())) } else { None };
     // client call script
     let mut calls: Vec<CallK> = vec![];
@@ -254,6 +298,7 @@ fn run_case(i: u64, rng: &mut Rng, rep: &mut Report, verbose: bool) {
                 match a {
                     Ad::Pass => Box::new(PassThrough),
                     Ad::EntriesOnly => Box::new(EntriesOnly::new()),
+                    Ad::FailAfter(k) => Box::new(FailAfter { left: *k }),
                 }
             })
             .collect();
@@ -314,14 +359,14 @@ fn run_case(i: u64, rng: &mut Rng, rep: &mut Report, verbose: bool) {
         (rets, start_state, c.driver.await)
     });
     let replay = json!({"lane":"streams","case":i});
-    let kind = if chain.is_empty() { "direct".to_string() } else { format!("adapted[{}]", chain.iter().map(|a| if *a == Ad::Pass { "P" } else { "E" }).collect::<String>()) };
+    let kind = if chain.is_empty() { "direct".to_string() } else { format!("adapted[{}]", chain.iter().map(|a| match a { Ad::Pass => "P", Ad::EntriesOnly => "E", Ad::FailAfter(_) => "F" }).collect::<String>()) };
     let kind_sig = if chain.is_empty() { "direct" } else if entries_only { "adapted-entries-only" } else { "adapted-pass-through" };
     if start_state != "Active" {
         rep.violation(format!("C10:{}:state-after-start={}", kind_sig, start_state), format!("{}", kind), replay.clone());
         rep.case(None);
         return;
     }
-    let mut model = Model { raw: raw.clone(), fault_after, entries_only, pos: 0, state: St::Active, res: None, collected_refs: vec![] };
+    let mut model = Model { raw: raw.clone(), fault_after, entries_only, pos: 0, state: St::Active, res: None, collected_refs: vec![], adapter_fails_at, adapter_calls: 0 };
     let mut history: Vec<String> = vec![];
     let mut ri = 0;
     for ck in &calls {
@@ -380,6 +425,9 @@ fn run_case(i: u64, rng: &mut Rng, rep: &mut Report, verbose: bool) {
     if fault_after.is_some() {
         rep.count("streams_with_connection_loss", 1);
     }
+    if adapter_fails_at.is_some() {
+        rep.count("streams_whose_adapter_fails_on_its_own", 1);
+    }
     if early_finish_at.is_some() {
         rep.count("streams_finished_early", 1);
     }
@@ -398,6 +446,137 @@ fn trunc<T: std::fmt::Debug>(t: &T) -> String {
 pub fn streams(ctx: &Ctx) -> Report {
     let n = ctx.n(100_000, 100_000_000);
     par_cases(ctx, "streams", n, ctx.secs(30, 600), |i, rng, rep| run_case(i, rng, rep, false))
+}
+
+/// The synchronous EntryStream is the same stream behind a blocking facade: items in order, and
+/// result() = what finish() returns (the server's final result with the referrals EntriesOnly
+/// collected, or rc 88 after an early stop).
+fn run_sync_case(i: u64, rng: &mut Rng, rep: &mut Report, verbose: bool) {
+    use std::io::{Read, Write};
+    use std::os::unix::net::UnixStream;
+    let entries_only = rng.bool();
+    let raw = gen_raw(rng, 1);
+    let stop_after: Option<usize> = if rng.chance(1, 4) { Some(rng.usize(raw.len() + 1)) } else { None };
+    let replay = json!({"lane":"sync_streams","case":i});
+    let (a, b) = match UnixStream::pair() {
+        Ok(p) => p,
+        Err(e) => {
+            rep.inconclusive(format!("socketpair: {}", e));
+            return;
+        }
+    };
+    let raw2 = raw.clone();
+    let srv = std::thread::spawn(move || {
+        let mut s = b;
+        let _ = s.set_read_timeout(Some(std::time::Duration::from_secs(20)));
+        let mut buf: Vec<u8> = vec![];
+        let mut tmp = [0u8; 8192];
+        let id = loop {
+            if let Some(t) = ber::outer_complete(&buf) {
+                match crate::msg::decode_request(&buf[..t]) {
+                    Ok(m) => break m.id,
+                    Err(_) => return,
+                }
+            }
+            match s.read(&mut tmp) {
+                Ok(0) | Err(_) => return,
+                Ok(n) => buf.extend_from_slice(&tmp[..n]),
+            }
+        };
+        let mut bytes = vec![];
+        for (r, cs) in &raw2 {
+            bytes.extend_from_slice(&ber::encode_min(&resp_node(id, r, cs.as_deref())));
+        }
+        let _ = s.write_all(&bytes);
+        // wait for the client to go away
+        loop {
+            match s.read(&mut tmp) {
+                Ok(0) | Err(_) => break,
+                Ok(_) => {}
+            }
+        }
+    });
+    let out = crate::report::guarded(move || -> Result<(Vec<Ret>, Ret), String> {
+        let mut conn = ldap3::LdapConn::with_settings(ldap3::LdapConnSettings::new().set_std_stream(ldap3::StdStream::Unix(a)), "ldapi:///").map_err(|e| format!("connect: {}", e))?;
+        let adapters: Vec<Box<dyn Adapter<'static, String, Vec<String>>>> = if entries_only { vec![Box::new(EntriesOnly::new())] } else { vec![] };
+        let mut st = conn.streaming_search_with(adapters, "op=1,dc=x", Scope::Subtree, "(objectClass=*)", vec!["*".to_string()]).map_err(|e| format!("start: {}", e))?;
+        let mut rets = vec![];
+        let mut n = 0;
+        loop {
+            if let Some(k) = stop_after {
+                if n >= k {
+                    break;
+                }
+            }
+            n += 1;
+            match st.next() {
+                Ok(Some(e)) => rets.push(Ret::Item(item_out(&e))),
+                Ok(None) => {
+                    rets.push(Ret::None);
+                    break;
+                }
+                Err(_) => {
+                    rets.push(Ret::Err);
+                    break;
+                }
+            }
+        }
+        let r = st.result();
+        let fin = if r.rc == 88 && r.text == "user cancelled" { Ret::FinishCancelled } else { Ret::Finish(res_out(&r)) };
+        Ok((rets, fin))
+    });
+    let _ = srv.join();
+    let (rets, fin) = match out {
+        Ok(Ok(x)) => x,
+        Ok(Err(e)) => {
+            rep.inconclusive(format!("sync stream setup: {}", e));
+            return;
+        }
+        Err(p) => {
+            rep.violation(format!("C10:sync-stream:panics@{}", p.site()), format!("{:?}", p), replay);
+            return;
+        }
+    };
+    let kind_sig = if entries_only { "sync-stream-behind-entries-only" } else { "sync-stream" };
+    let mut model = Model { raw: raw.clone(), fault_after: None, entries_only, pos: 0, state: St::Active, res: None, collected_refs: vec![], adapter_fails_at: None, adapter_calls: 0 };
+    for (k, got) in rets.iter().enumerate() {
+        let want = model.next();
+        if &want != got {
+            let sig = match (&want, got) {
+                (Ret::Item(_), Ret::Item(_)) => "item-differs-or-out-of-order",
+                (Ret::Item(_), _) => "item-missing",
+                (Ret::None, Ret::Item(_)) => "extra-item",
+                _ => "next-result-differs",
+            };
+            rep.violation(format!("C10:{}:{}", kind_sig, sig), format!("next() #{}: want {} got {}", k, trunc(&want), trunc(got)), replay.clone());
+            rep.case(None);
+            return;
+        }
+    }
+    let want = model.finish();
+    if want != fin {
+        let sig = match (&want, &fin) {
+            (Ret::Finish(w), Ret::Finish(g)) if w.refs != g.refs => "final-result-differs:referrals",
+            (Ret::Finish(_), Ret::Finish(_)) => "final-result-differs",
+            (Ret::Finish(_), Ret::FinishCancelled) => "result-after-end-returns-cancelled",
+            (Ret::FinishCancelled, _) => "early-result-not-88",
+            _ => "result-differs",
+        };
+        rep.violation(format!("C10:{}:{}", kind_sig, sig), format!("result(): want {} got {}", trunc(&want), trunc(&fin)), replay.clone());
+    }
+    if verbose {
+        println!("{} raw {} stop {:?}: {} items, result {}", kind_sig, raw.len(), stop_after, rets.len(), trunc(&fin));
+    }
+    rep.count(&format!("streams_{}", kind_sig), 1);
+    if i < 2 {
+        rep.sample(json!({"lane":"sync_streams","case":i,"kind":kind_sig,"raw_items":raw.len(),"stopped_after":stop_after}));
+    }
+    rep.case(Some(fnv(format!("{}{:?}{:?}", entries_only, raw, stop_after).as_bytes())));
+}
+
+pub fn sync_streams(ctx: &Ctx) -> Report {
+    let n = ctx.n(3_000, 1_000_000);
+    par_cases(ctx, "sync_streams", n, ctx.secs(20, 300), |i, rng, rep| run_sync_case(i, rng, rep, false))
 }
 
 /// search(): exactly the entries in order, referral URIs merged into refs, intermediates dropped.
